@@ -304,6 +304,25 @@ for b1, b2 in pairs:
 '''
 
 
+REPLAY_ONEBOX = '''
+# crossings where one of the two curves has an axis-parallel tangent (its sub-boxes get flat quickly) while the other passes obliquely
+def through(p0, p2, s, pt):
+    c = (pt - (1 - s)**2*p0 - s**2*p2)/(2*s*(1 - s)); return QuadraticBezier(p0, c, p2)
+s_curve = CubicBezier(-0.256j, 1 + 0.384j, 2 - 0.576j, 3 + 0.864j)          # x = 3t, y = 4(t-0.4)^3: flat inflection at (1.2, 0)
+flat_pt = 1.2 + 0j
+pairs = [(s_curve, through(flat_pt - 0.9 - 1.2j, flat_pt + 0.93 + 1.41j, 0.37, flat_pt), flat_pt)]
+par = QuadraticBezier(0j, 1 + 2j, 2 + 0j)                                    # apex (1, 1) at t = 0.5
+pairs.append((par, through(0.31 - 0.2j, 1.77 + 2.3j, 0.41, 1 + 1j), 1 + 1j))
+for a, b, where in pairs:
+    size = max(abs(z) for s_ in (a, b) for z in s_.bpoints()) + 1
+    for x, y in ((a, b), (b, a)):
+        for t1, t2 in x.intersect(y):
+            d = abs(x.point(t1) - y.point(t2))
+            if d > 1e-5 * size or abs(x.point(t1) - where) > 1e-5 * size:
+                REPRODUCED('%r.intersect(%r) reports (%r, %r): the points are %r apart, %r from the crossing %r' % (x, y, t1, t2, d, abs(x.point(t1) - where), where))
+'''
+
+
 def fam_subdivision_step(R):
     """the first iteration of the real bezier_intersections on two curves known only through their bounding boxes: which pairs
     of boxes are accepted (reported as an intersection at the mid parameters) and which are dropped."""
@@ -348,8 +367,13 @@ def fam_subdivision_step(R):
             R.ob('accepted-boxes-are-not-degenerate', ctx, z3.And(*[e.e > 0 for e in ext]),
                  cex=lambda m: {'cls': 'subdivision accepts a pair whose box is degenerate (zero width or height, any length)',
                                 'inputs': {'box1': [mval(m, b) for b in c1.box], 'box2': [mval(m, b) for b in c2.box]}, 'script': REPLAY_DEGENERATE})
+            # (C) both boxes have a small area (the subdivision's own stopping rule, for BOTH curves)
+            R.ob('both-accepted-boxes-have-area<tol', ctx, z3.And((ext[0] * ext[1]).e < 1e-8, (ext[2] * ext[3]).e < 1e-8),
+                 cex=lambda m: {'cls': 'subdivision accepts a pair although one of the two boxes is still large',
+                                'inputs': {'box1': [mval(m, b) for b in c1.box], 'box2': [mval(m, b) for b in c2.box]}, 'script': REPLAY_ONEBOX})
             # (A) accepted boxes are small (known finding: thin boxes)
-            R.ob('accepted-boxes-are-small', ctx, z3.And(*[e.e <= 1e-3 for e in ext]), extra=[e.e > 0 for e in ext],
+            R.ob('accepted-boxes-are-small', ctx, z3.And(*[e.e <= 1e-3 for e in ext]),
+                 extra=[e.e > 0 for e in ext] + [(ext[0] * ext[1]).e < 1e-8, (ext[2] * ext[3]).e < 1e-8],
                  cex=lambda m: {'cls': 'subdivision accepts a pair by box AREA (a long thin box has a small area)',
                                 'inputs': {'box1': [mval(m, b) for b in c1.box], 'box2': [mval(m, b) for b in c2.box]}, 'script': REPLAY_AREA})
         R.sample({'result': str(r)[:60]})
